@@ -732,12 +732,20 @@ impl<'a> Gen<'a> {
     pub fn contract(&mut self, depth: usize) -> String {
         let kind = self.pick(&["contract", "contract", "contract", "abstract contract", "library", "interface"]);
         let name = self.pick(&["A", "B", "Token", "Vault", "Lib", "IThing"]);
-        let bases = if self.pct(30) {
-            if self.pct(50) {
-                format!(" is Base({}), Other", self.expr(depth))
-            } else {
-                " is Ownable".to_string()
+        let bases = if self.pct(35) {
+            // 1-4 bases, each with or without constructor arguments, in any order
+            let n = 1 + self.rng.below(4);
+            let mut bs = vec![];
+            for _ in 0..n {
+                let b = self.pick(&["Base", "Other", "Ownable", "Lib.Base"]);
+                bs.push(match self.rng.below(4) {
+                    0 => format!("{}({})", b, self.expr(depth)),
+                    1 => format!("{}({}, {})", b, self.expr(depth), self.expr(depth)),
+                    2 => format!("{}()", b),
+                    _ => b,
+                });
             }
+            format!(" is {}", bs.join(", "))
         } else {
             String::new()
         };
